@@ -94,6 +94,23 @@ def _model_iso(name, P, i):
 
 
 def _point_iso(name, P, i):
+    iso = _point_iso_fresh(name, P, i)
+    hr = gen.rng(repr(sorted(P.items())), "history")
+    if hr.random() < 0.5:
+        # an isotherm that has been looked at before it enters the mixture calculation: read with a smoother interpolant
+        # (as a plot or a report would), on either axis. IAST is defined on the piecewise-linear interpolant whatever came before.
+        kind = hr.choice(["cubic", "quadratic", "slinear", "nearest"])
+        try:
+            with numpy.errstate(all="ignore"):
+                iso.loading_at(float(hr.uniform(0.01, 50.0)), interpolation_type=kind)
+                if hr.random() < 0.5:
+                    iso.pressure_at(float(numpy.median(iso.loading(branch="ads"))), interpolation_type=kind)
+        except Exception:
+            pass
+    return iso
+
+
+def _point_iso_fresh(name, P, i):
     import pygaps
     m = GM.make_model(name, P, temperature=298.0)
     ps = numpy.exp(numpy.linspace(math.log(1e-4), math.log(1e4), 400))
